@@ -28,7 +28,13 @@ ALPHABET = ['decode', 'decode_nocreate', 'enumerate', 'fix', 'free', 'mutate', '
 
 @st.composite
 def _case(draw, tier):
-    spec = draw(specs.full_spec(max_nodes=8, p_conn=0.2, p_dv=0.5, p_con=0.1, small_conn=True))
+    kind = draw(st.integers(0, 5))
+    if kind == 0:
+        # two connection choices that are active together (caches keyed by earlier connection choices)
+        spec = draw(specs.sel_spec(min_nodes=3, max_nodes=5, max_incompat=0, p_extra=False))
+        spec = draw(specs.add_conns(spec, max_choices=2, min_choices=2, small=True, start_bias=6, allow_grp=False))
+    else:
+        spec = draw(specs.full_spec(max_nodes=8, p_conn=0.2, p_dv=0.5, p_con=0.1, small_conn=True))
     if draw(st.integers(0, 2)) == 0:
         spec = draw(specs.add_metrics(spec, max_met=2))
     n = draw(st.integers(2, 6 if tier == 'quick' else 8))
